@@ -63,17 +63,16 @@ func (d *Deduplicator) NotifyDKGStarted(
 
 	// The cache key is the hexadecimal representation of the seed.
 	cacheKey := newDKGSeed.Text(16)
-	// If the key is not in the cache, that means the seed was not handled
-	// yet and the client should proceed with the execution.
-	if !d.dkgSeedCache.Has(cacheKey) {
-		verifhook.Point("beacon.NotifyDKGStarted")
-		d.dkgSeedCache.Add(cacheKey)
-		return true
-	}
-
-	// Otherwise, the DKG seed is a duplicate and the client should not proceed
-	// with the execution.
-	return false
+	// Add checks for the key and inserts it in one step under the cache's
+	// lock and reports whether the key was inserted. Checking with Has and
+	// inserting with a separate Add call would let two concurrent deliveries
+	// of the same event both see the key as missing and both be handled.
+	//
+	// If the key was inserted, the event was not handled yet and the client
+	// should proceed with the execution. Otherwise, it is a duplicate and the
+	// client should not proceed with the execution.
+	verifhook.Point("beacon.NotifyDKGStarted")
+	return d.dkgSeedCache.Add(cacheKey)
 }
 
 // NotifyRelayEntryStarted notifies the client wants to start relay entry
